@@ -109,10 +109,18 @@ let model_of (cs : Sx.t) (c : case) =
   | Some (k, r) when k == cs -> r
   | _ -> let ((o, st), log) = run_model c in let r = (o, st, log) in last := Some (cs, r); r
 
+let store_sx (st : (RZ.range, z) state) : str =
+  let entry (i : (RZ.range, z) incompat) =
+    let (kind, causes) = match i.ikind with
+      | KNotRoot _ -> ("notroot", "none") | KNoVersions _ -> ("nov", "none") | KFromDep _ -> ("dep", "none")
+      | KDerived (a, b) -> ("der", sp "(%d %d)" (int_of_nat a) (int_of_nat b)) | KCustom _ -> ("custom", "none") in
+    sp "(%s %s %s)" kind causes (terms_sx i.terms) in
+  "(store " ^ String.concat " " (List.map entry st.store) ^ ")"
+
 let eval (cs : Sx.t) : str =
   let c = parse_case cs in
-  let (o, _, _) = model_of cs c in
-  outcome_sx o
+  let (o, st, _) = model_of cs c in
+  sp "(res %s) %s" (outcome_sx o) (store_sx st)
 
 (* ---------------------------------------------------------------- oracles *)
 let has (s : RZ.range) (v : int) = List.exists (fun sg -> D_ranges.seg_has sg v) s
@@ -382,10 +390,13 @@ let check_picks (c : case) (log : (((n * RZ.range) list * (n * z) list) * nat) l
             | _ -> None)
          else None)) log
 
-let oracle (cs : Sx.t) (rust : str) : (str * str) option =
+let oracle (cs : Sx.t) (rust_full : str) : (str * str) option =
   let c = parse_case cs in
-  let (o, st, log) = model_of cs c in
-  let robs = (try Some (Sx.parse rust) with _ -> None) in
+  let (o, _st, log) = model_of cs c in
+  let groups = (try Sx.list (Sx.parse ("(" ^ rust_full ^ ")")) with _ -> []) in
+  let robs = List.find_map (function Sx.L [Sx.A "res"; r] -> Some r | _ -> None) groups in
+  let rust = (match robs with Some r -> Sx.to_string r | None -> rust_full) in
+  let rstore = List.find_map (function Sx.L (Sx.A "store" :: es) -> Some es | _ -> None) groups in
   let fault = is_fault_case c in
   let first = List.find_map (fun f -> f ()) in
   first [
@@ -411,18 +422,22 @@ let oracle (cs : Sx.t) (rust : str) : (str * str) option =
         | OMismatch _ | OPanic _ | OOutOfFuel -> None
         | _ -> (match check_picks c log with Some w -> Some ("C14", w) | None -> None));
     (fun () -> if fault then None else
-        (* C06: every incompatibility of the (model) store is valid w.r.t. all solutions of the registry *)
-        match o with
-        | OMismatch _ | OPanic _ | OOutOfFuel | OPickNotMax _ -> None
-        | _ ->
+        (* C06: every incompatibility of the implementation's store (hook snapshot) is valid w.r.t. all
+           solutions of the registry *)
+        match rstore with
+        | None -> None
+        | Some entries ->
           (match all_solutions c with
            | None -> None
            | Some sols ->
-             let bad = List.find_opt (fun (i : (RZ.range, z) incompat) ->
-               let ts = List.map (fun (p, t) -> match t with Pos s -> (int_of_n p, true, s) | Neg s -> (int_of_n p, false, s)) i.terms in
-               List.exists (fun a -> List.for_all (fun ((p, _, _) as t) ->
-                 term_true t (match List.assoc_opt p a with Some v -> Some (2 * v) | None -> None)) ts) sols) st.store in
+             let bad = List.find_opt (fun e ->
+               match e with
+               | Sx.L [_kind; _causes; ts] ->
+                 let ts = parse_terms ts in
+                 List.exists (fun a -> List.for_all (fun ((p, _, _) as t) ->
+                   term_true t (match List.assoc_opt p a with Some v -> Some (2 * v) | None -> None)) ts) sols
+               | _ -> false) entries in
              (match bad with
-              | Some i -> Some ("C06", "a recorded incompatibility is violated by a valid solution: " ^ terms_sx i.terms)
+              | Some e -> Some ("C06", "a recorded incompatibility is violated by a valid solution: " ^ Sx.to_string e)
               | None -> None)));
   ]
